@@ -253,7 +253,9 @@ func (s *Suite) Floor(class string, min float64, of string) {
 
 func (s *Suite) Note(f string, a ...any) {
 	s.mu.Lock()
-	s.notes = append(s.notes, fmt.Sprintf(f, a...))
+	if len(s.notes) < 30 {
+		s.notes = append(s.notes, fmt.Sprintf(f, a...))
+	}
 	s.mu.Unlock()
 }
 
